@@ -110,6 +110,9 @@ pub struct Session {
     pub f20_ents: BTreeSet<u64>,
     /// Reference model of every held entity's confirmation history: server entity -> confirmed ticks.
     pub conf: BTreeMap<u64, BTreeSet<u32>>,
+    /// Server entities whose client copy carries the history marker, and the model of their `HistA`.
+    pub pred: BTreeSet<u64>,
+    pub hist: BTreeMap<u64, Vec<(u32, u32)>>,
 }
 
 impl Session {
@@ -152,6 +155,8 @@ impl Session {
             tick0: false,
             f20_ents: BTreeSet::new(),
             conf: BTreeMap::new(),
+            pred: BTreeSet::new(),
+            hist: BTreeMap::new(),
         }
     }
     pub fn up(&self) -> bool {
@@ -603,6 +608,25 @@ impl Sim {
                 }
             }
             Step::ClientFrame { client, dt_ms } => self.client_frame(*client as usize, *dt_ms),
+            Step::ClientMark { client, slot } => {
+                let c = *client as usize;
+                if c < self.clients.len() && self.prof.app.history {
+                    if let Some(se) = self.slot_ent(*slot) {
+                        let up = self.clients[c].sess.as_ref().map(|s| s.client_up).unwrap_or(false);
+                        let cent = self.clients[c].app.world().get_resource::<ServerEntityMap>().and_then(|m| m.to_client().get(&se).copied());
+                        if let (true, Some(ce)) = (up, cent) {
+                            let w = self.clients[c].app.world_mut();
+                            if let Ok(mut e) = w.get_entity_mut(ce) {
+                                if e.contains::<ConfirmHistory>() && !e.contains::<Pred>() {
+                                    e.insert(Pred);
+                                    self.clients[c].sess.as_mut().unwrap().pred.insert(se.to_bits());
+                                    self.stats.probe("history_marker_set");
+                                }
+                            }
+                        }
+                    }
+                }
+            }
             Step::Deliver { dir, client, chan, pick } => {
                 self.deliver(*dir, *client as usize, *chan, Some(*pick), false);
             }
